@@ -6,8 +6,16 @@ All theorems hold for EVERY clock function and EVERY list of batches (the enviro
 `l : List Int` are the per-command extra timeouts, the burst has `l.length` commands.
 Helper definitions (`ext`, `calledOf`, `sendKeys`, `WF`, `Reach`) and the history invariant
 are in `RigModel.Lemmas.C06`.
+
+Termination (`terminates_under_progress`, `terminates_under_select`) is proved under explicit
+hypotheses about the operating system (`Progress`, `ProgressWeak`; predicates `timedOut`,
+`timedOutWeak`, `alongRun` in the model file, lemmas in `RigModel.Lemmas.C06Term`).
+The composition with C07 (`read_through_burst`, `write_through_burst`: `SCPConnection.read` / `write`
+as bursts of C07's chunks) uses `RigModel.Lemmas.C06Compose` and the C07 exactness theorems.
 -/
 import RigModel.Lemmas.C06
+import RigModel.Lemmas.C06Term
+import RigModel.Lemmas.C06Compose
 set_option linter.unusedSimpArgs false
 set_option linter.unusedVariables false
 
@@ -280,6 +288,414 @@ theorem retryable_ignored (d : Dgram) (ds : List Dgram) (outs : List (Nat × Out
     rcases hx with hx | hx <;> simp [hx, rcOk]
   simp only [recvAll, e1, e2, if_true]
 
+/-! ### termination under explicit progress hypotheses about the operating system
+
+`run` returns `.exhausted` when the script of batches ends before the loop does, so "the call
+terminates" is: for a long enough script the result is not `.exhausted`.  This cannot hold for every
+environment (a clock that stands still never lets a deadline pass); the hypotheses below say what
+the operating system (`time.time`, `select`, the socket) must provide.  They are assumptions about
+the OS, not facts about rig. -/
+
+/-- **What the OS must provide**, for an environment given as a clock and a stream of batches
+(`firstBatches env n` are the first `n` batches):
+(a) the clock never goes backwards;
+(b) whenever an iteration of the run receives no datagram, its final clock reading is strictly later
+    than the earliest deadline of an outstanding packet (`select` returned by timeout), `timedOut`;
+(c) the environment delivers at most `D` datagrams in total. -/
+structure Progress (cfg : Cfg) (l : List Int) (clock : Nat → Int) (s0 : Nat) (env : Nat → List Dgram)
+    (D : Nat) : Prop where
+  mono : ∀ k, clock k ≤ clock (k + 1)
+  select : ∀ n, alongRun cfg (ext l) clock (timedOut cfg (ext l) clock) (St.init s0) (firstBatches env n) = true
+  finite : ∀ n, (firstBatches env n).flatten.length ≤ D
+
+/-- the same with (b) as `select` really behaves (`timedOutWeak`): after a `select` without datagram
+the final reading is not earlier than the earliest deadline, and strictly later than the reading
+the timeout was computed from -/
+structure ProgressWeak (cfg : Cfg) (l : List Int) (clock : Nat → Int) (s0 : Nat) (env : Nat → List Dgram)
+    (D : Nat) : Prop where
+  mono : ∀ k, clock k ≤ clock (k + 1)
+  select : ∀ n, alongRun cfg (ext l) clock (timedOutWeak cfg (ext l) clock) (St.init s0) (firstBatches env n) = true
+  finite : ∀ n, (firstBatches env n).flatten.length ≤ D
+
+theorem res_cases {r : Res} (h : r ≠ .exhausted) :
+    r = .done ∨ (∃ c, r = .timeout c) ∨ (∃ rc c, r = .fatal rc c) := by
+  cases r with
+  | done => exact Or.inl rfl
+  | timeout c => exact Or.inr (Or.inl ⟨c, rfl⟩)
+  | fatal rc c => exact Or.inr (Or.inr ⟨rc, c, rfl⟩)
+  | exhausted => exact absurd rfl h
+
+section termination
+variable {s0 : Nat}
+
+/-- **Termination, on a finite script.** If every iteration that receives no datagram ends with a
+clock reading strictly later than an outstanding deadline, a script with at least
+`commands * n_tries + datagrams + 1` batches is never exhausted: the burst ends with `done`,
+`TimeoutError` or `FatalReturnCodeError`.  (The monotone clock is not needed for this form of (b).) -/
+theorem terminates_on_script (h : WF cfg) {batches : List (List Dgram)}
+    (hsel : alongRun cfg (ext l) clock (timedOut cfg (ext l) clock) (St.init s0) batches = true)
+    (hlen : l.length * cfg.nTries + batches.flatten.length + 1 ≤ batches.length) :
+    (run cfg (ext l) clock (St.init s0) batches).2.2 ≠ .exhausted := by
+  apply run_terminates h batches (St.init s0) [] (Inv.init cfg l _ s0) hsel
+  simpa [sendKeys] using hlen
+
+/-- **Iteration bound.** Under the same hypothesis the loop body runs at most
+`commands * n_tries + datagrams + 1` times, however long the script is. -/
+theorem iterations_bound (h : WF cfg) {batches : List (List Dgram)}
+    (hsel : alongRun cfg (ext l) clock (timedOut cfg (ext l) clock) (St.init s0) batches = true) :
+    iterations cfg (ext l) clock (St.init s0) batches ≤ l.length * cfg.nTries + batches.flatten.length + 1 := by
+  by_cases hle : batches.length ≤ l.length * cfg.nTries + batches.flatten.length + 1
+  · exact Nat.le_trans (iterations_le _ _ _ _ _) hle
+  · have hsplit := List.take_append_drop (l.length * cfg.nTries + batches.flatten.length + 1) batches
+    have hsel' : alongRun cfg (ext l) clock (timedOut cfg (ext l) clock) (St.init s0)
+        (batches.take (l.length * cfg.nTries + batches.flatten.length + 1)) = true := by
+      apply alongRun_prefix _ _ _ _ _ _ (batches.drop (l.length * cfg.nTries + batches.flatten.length + 1))
+      rw [hsplit]; exact hsel
+    have hfl := flatten_take_le batches (l.length * cfg.nTries + batches.flatten.length + 1)
+    have hne := terminates_on_script h hsel' (by rw [List.length_take]; omega)
+    have e : iterations cfg (ext l) clock (St.init s0) batches = iterations cfg (ext l) clock (St.init s0)
+        (batches.take (l.length * cfg.nTries + batches.flatten.length + 1)) := by
+      conv => lhs; rw [← hsplit]
+      exact iterations_append _ _ _ _ _ _ hne
+    rw [e]
+    refine Nat.le_trans (iterations_le _ _ _ _ _) ?_
+    rw [List.length_take]; omega
+
+/-- **Termination under progress.** If the OS provides (a) a clock that never goes backwards, (b)
+timed-out `select`s (strict form) and (c) at most `D` datagrams in total, then the burst of
+`l.length` commands ends within `N = commands * n_tries + D + 1` loop iterations: on the first `N`
+batches the result is `done`, `TimeoutError` or `FatalReturnCodeError` - never `exhausted` - and
+every longer prefix of the environment gives exactly the same final state, events and result.
+((a) is not used by this proof - (b) compares the final reading with the deadline directly; it is
+needed by `terminates_under_select`.) -/
+theorem terminates_under_progress (h : WF cfg) {env : Nat → List Dgram} {D : Nat}
+    (hp : Progress cfg l clock s0 env D) :
+    (let r := (run cfg (ext l) clock (St.init s0) (firstBatches env (l.length * cfg.nTries + D + 1))).2.2
+     r = .done ∨ (∃ c, r = .timeout c) ∨ (∃ rc c, r = .fatal rc c)) ∧
+    (∀ n, l.length * cfg.nTries + D + 1 ≤ n →
+      run cfg (ext l) clock (St.init s0) (firstBatches env n) =
+      run cfg (ext l) clock (St.init s0) (firstBatches env (l.length * cfg.nTries + D + 1))) ∧
+    (∀ n, iterations cfg (ext l) clock (St.init s0) (firstBatches env n) ≤ l.length * cfg.nTries + D + 1) := by
+  have hne : (run cfg (ext l) clock (St.init s0) (firstBatches env (l.length * cfg.nTries + D + 1))).2.2
+      ≠ .exhausted := by
+    apply terminates_on_script h (hp.select _)
+    have := hp.finite (l.length * cfg.nTries + D + 1)
+    rw [firstBatches_length]; omega
+  refine ⟨res_cases hne, ?_, ?_⟩
+  · intro n hn
+    obtain ⟨k, rfl⟩ : ∃ k, n = (l.length * cfg.nTries + D + 1) + k := ⟨n - (l.length * cfg.nTries + D + 1), by omega⟩
+    rw [firstBatches_add, run_append _ _ _ _ _ _ hne]
+  · intro n
+    have := iterations_bound h (hp.select n)
+    have := hp.finite n
+    omega
+
+/-- **Termination, on a finite script, `select` as it really behaves.** With a clock that never goes
+backwards, and every iteration without datagram ending with a reading that is not earlier than the
+earliest deadline and strictly later than the reading taken before `select`, a script with at
+least `2 * (commands * n_tries + datagrams + 1)` batches is never exhausted.  (A `select` that wakes
+up exactly at the deadline does not retransmit - the code compares strictly - but the next
+iteration does.) -/
+theorem terminates_on_script_weak (h : WF cfg) (hm : ∀ k, clock k ≤ clock (k + 1))
+    {batches : List (List Dgram)}
+    (hsel : alongRun cfg (ext l) clock (timedOutWeak cfg (ext l) clock) (St.init s0) batches = true)
+    (hlen : 2 * (l.length * cfg.nTries + batches.flatten.length + 1) ≤ batches.length) :
+    (run cfg (ext l) clock (St.init s0) batches).2.2 ≠ .exhausted := by
+  apply run_terminates_weak h hm batches (St.init s0) [] (Inv.init cfg l _ s0) hsel
+  left
+  simp only [sendKeys, List.filterMap_nil, List.length_nil, Nat.sub_zero]
+  omega
+
+theorem iterations_bound_weak (h : WF cfg) (hm : ∀ k, clock k ≤ clock (k + 1))
+    {batches : List (List Dgram)}
+    (hsel : alongRun cfg (ext l) clock (timedOutWeak cfg (ext l) clock) (St.init s0) batches = true) :
+    iterations cfg (ext l) clock (St.init s0) batches ≤
+      2 * (l.length * cfg.nTries + batches.flatten.length + 1) := by
+  by_cases hle : batches.length ≤ 2 * (l.length * cfg.nTries + batches.flatten.length + 1)
+  · exact Nat.le_trans (iterations_le _ _ _ _ _) hle
+  · have hsplit := List.take_append_drop (2 * (l.length * cfg.nTries + batches.flatten.length + 1)) batches
+    have hsel' : alongRun cfg (ext l) clock (timedOutWeak cfg (ext l) clock) (St.init s0)
+        (batches.take (2 * (l.length * cfg.nTries + batches.flatten.length + 1))) = true := by
+      apply alongRun_prefix _ _ _ _ _ _ (batches.drop (2 * (l.length * cfg.nTries + batches.flatten.length + 1)))
+      rw [hsplit]; exact hsel
+    have hfl := flatten_take_le batches (2 * (l.length * cfg.nTries + batches.flatten.length + 1))
+    have hne := terminates_on_script_weak h hm hsel' (by rw [List.length_take]; omega)
+    have e : iterations cfg (ext l) clock (St.init s0) batches = iterations cfg (ext l) clock (St.init s0)
+        (batches.take (2 * (l.length * cfg.nTries + batches.flatten.length + 1))) := by
+      conv => lhs; rw [← hsplit]
+      exact iterations_append _ _ _ _ _ _ hne
+    rw [e]
+    refine Nat.le_trans (iterations_le _ _ _ _ _) ?_
+    rw [List.length_take]; omega
+
+/-- **Termination under what `select` guarantees.** As `terminates_under_progress`, with (b) weakened
+to `timedOutWeak`; here the monotone clock (a) is needed, and the bound doubles:
+`N = 2 * (commands * n_tries + D + 1)` iterations. -/
+theorem terminates_under_select (h : WF cfg) {env : Nat → List Dgram} {D : Nat}
+    (hp : ProgressWeak cfg l clock s0 env D) :
+    (let r := (run cfg (ext l) clock (St.init s0) (firstBatches env (2 * (l.length * cfg.nTries + D + 1)))).2.2
+     r = .done ∨ (∃ c, r = .timeout c) ∨ (∃ rc c, r = .fatal rc c)) ∧
+    (∀ n, 2 * (l.length * cfg.nTries + D + 1) ≤ n →
+      run cfg (ext l) clock (St.init s0) (firstBatches env n) =
+      run cfg (ext l) clock (St.init s0) (firstBatches env (2 * (l.length * cfg.nTries + D + 1)))) ∧
+    (∀ n, iterations cfg (ext l) clock (St.init s0) (firstBatches env n) ≤
+      2 * (l.length * cfg.nTries + D + 1)) := by
+  have hne : (run cfg (ext l) clock (St.init s0) (firstBatches env (2 * (l.length * cfg.nTries + D + 1)))).2.2
+      ≠ .exhausted := by
+    apply terminates_on_script_weak h hp.mono (hp.select _)
+    have := hp.finite (2 * (l.length * cfg.nTries + D + 1))
+    rw [firstBatches_length]; omega
+  refine ⟨res_cases hne, ?_, ?_⟩
+  · intro n hn
+    obtain ⟨k, rfl⟩ : ∃ k, n = (2 * (l.length * cfg.nTries + D + 1)) + k :=
+      ⟨n - (2 * (l.length * cfg.nTries + D + 1)), by omega⟩
+    rw [firstBatches_add, run_append _ _ _ _ _ _ hne]
+  · intro n
+    have := iterations_bound_weak h hp.mono (hp.select n)
+    have := hp.finite n
+    omega
+
+end termination
+
+def stillCfg : Cfg := { window := 1, nTries := 1, modulus := 4, defaultTimeout := 1 }
+def stillOut : Out := { cmd := 0, tries := 1, timeout := 1, deadline := 1 }
+
+/-- **The progress hypothesis cannot be dropped.** With a clock that stands still no deadline ever
+passes: one command, no datagram, and the script is exhausted however long it is. -/
+theorem no_termination_without_progress (n : Nat) :
+    (run stillCfg (ext [0]) (fun _ => 0) (St.init 0) (List.replicate n [])).2.2 = .exhausted := by
+  have key : ∀ n (st : St), st.pend = [] →
+      (st.outs = [(0, stillOut)] ∨ (st.outs = [] ∧ st.queued = true ∧ st.next = 0 ∧ st.seqCtr = 0)) →
+      (run stillCfg (ext [0]) (fun _ => 0) st (List.replicate n [])).2.2 = .exhausted := by
+    intro n
+    induction n with
+    | zero =>
+      intro st hp ho
+      rcases ho with ho | ⟨ho, hq, _, _⟩
+      · simp [run, St.active, ho]
+      · simp [run, St.active, ho, hq]
+    | succ n ih =>
+      intro st hp ho
+      obtain ⟨nx, q, sc, k, outs, pend⟩ := st
+      simp only at hp ho
+      subst hp
+      rw [List.replicate_succ]
+      unfold run
+      rcases ho with ho | ⟨ho, hq, hn, hs⟩
+      · subst ho
+        simp only [St.active, List.isEmpty_cons, Bool.not_false, Bool.or_true, Bool.true_or, if_true]
+        have hi : (iter stillCfg (ext [0]) (fun _ => 0)
+            { next := nx, queued := q, seqCtr := sc, k := k, outs := [(0, stillOut)], pend := [] } []) =
+            ({ next := nx, queued := q, seqCtr := sc, k := k + 2, outs := [(0, stillOut)], pend := [] }, [], none) := by
+          simp [iter, fill, recvAll, retrans, stillCfg, stillOut]
+        rw [hi]
+        simp only
+        exact ih _ rfl (Or.inl rfl)
+      · subst ho hq hn hs
+        simp only [St.active, Bool.true_or, if_true]
+        have hi : (iter stillCfg (ext [0]) (fun _ => 0)
+            { next := 0, queued := true, seqCtr := 0, k := k, outs := [], pend := [] } []) =
+            ({ next := 1, queued := true, seqCtr := 1, k := k + 3, outs := [(0, stillOut)], pend := [] },
+             [Ev.send 0 0 1 0], none) := by
+          simp [iter, fill, recvAll, retrans, ext, drawSeq, hasSeq, stillCfg, stillOut]
+        rw [hi]
+        simp only
+        exact ih _ rfl (Or.inl rfl)
+  exact key n (St.init 0) rfl (Or.inr ⟨rfl, rfl, rfl, rfl⟩)
+
+/-! ### composition with C07: `SCPConnection.read` / `write` through the burst -/
+
+section compose
+variable {cfg : Cfg} {clock : Nat → Int} {s0 : Nat} {batches : List (List Dgram)} {st : St} {evs : List Ev} {res : Res}
+
+/-- **Read through the burst (buffer form).** `chunks = C07.read buf addr len` are the commands of
+`SCPConnection.read`.  For EVERY environment (clock, batches) and every window size: if each
+delivered OK datagram that answers command `j` of this burst (`origin`, ghost ground truth as in
+`callback_own_reply`, with its `netOK` / `fresh` hypotheses and at most `modulus` chunks) carries
+the bytes the machine holds for chunk `j` (`hpay`), then no callback's slice assignment fails -
+whatever the outcome of the burst - and if the burst ends `done` the assembled receive buffer is
+exactly `C07.readMem m addr len`, whatever the buffer held before. -/
+theorem read_through_burst_buffer (h : WF cfg) {buf addr len : Nat} (hb : 0 < buf) (m : C07.Mem)
+    (hrun : run cfg (ext (chunkTimeouts (C07.read buf addr len))) clock (St.init s0) batches = (st, evs, res))
+    (origin : Nat → Option Nat) (payload : Nat → List Nat)
+    (netOK : ∀ d ∈ batches.flatten, ∀ j, origin d.id = some j → ∃ t, Ev.send d.seq j 1 t ∈ evs)
+    (hlen : (C07.read buf addr len).length ≤ cfg.modulus)
+    (fresh : ∀ d ∈ batches.flatten, origin d.id = none → ∀ c t, Ev.send d.seq c 1 t ∉ evs)
+    (hpay : ∀ d ∈ batches.flatten, d.rc = rcOk → ∀ j ch, origin d.id = some j →
+      (C07.read buf addr len)[j]? = some ch → payload d.id = C07.readMem m ch.addr ch.size)
+    (buffer0 : C07.Mem) :
+    ∃ buffer, assembleRead (C07.read buf addr len) payload addr evs buffer0 = some buffer ∧
+      (res = .done → C07.readMem buffer 0 len = C07.readMem m addr len) := by
+  have hlen' : (chunkTimeouts (C07.read buf addr len)).length ≤ cfg.modulus := by
+    rw [chunkTimeouts_length]; exact hlen
+  have hcb : ∀ c i, Ev.callback c i ∈ evs →
+      ∃ ch, (C07.read buf addr len)[c]? = some ch ∧ payload i = C07.readMem m ch.addr ch.size := by
+    intro c i hm
+    have hc : c < (C07.read buf addr len).length := by
+      have := callback_lt h hrun hm
+      rwa [chunkTimeouts_length] at this
+    obtain ⟨d, hd, hid, hrc, _⟩ := callback_own_seq h hrun hm
+    have ho := callback_own_reply h hrun origin netOK hlen' fresh hm
+    refine ⟨(C07.read buf addr len)[c], List.getElem?_eq_getElem hc, ?_⟩
+    rw [← hid]
+    exact hpay d hd hrc c _ (by rw [hid]; exact ho) (List.getElem?_eq_getElem hc)
+  refine ⟨_, assembleRead_fold _ payload addr m evs buffer0 hcb, ?_⟩
+  intro hdone
+  apply C07.read_exact_any_order buf addr len m hb buffer0
+  · intro ch hch
+    obtain ⟨c, i, _, hget⟩ := mem_doneChunks.mp hch
+    exact List.mem_of_getElem? hget
+  · intro ch hch
+    obtain ⟨c, hc, rfl⟩ := List.getElem_of_mem hch
+    have hcalled := done_all_called h hrun hdone c (by rw [chunkTimeouts_length]; exact hc)
+    obtain ⟨i, hi⟩ := mem_calledOf.mp hcalled
+    exact mem_doneChunks.mpr ⟨c, i, hi, List.getElem?_eq_getElem hc⟩
+
+/-- **Read through the burst.** Under the hypotheses of `read_through_burst_buffer`, `SCPConnection.read`
+(`readThrough`) never fails with a callback's `ValueError`, and when the burst ends `done` it returns
+exactly the bytes of memory `[addr, addr + len)` - for every environment and every window size. -/
+theorem read_through_burst (h : WF cfg) {buf addr len : Nat} (hb : 0 < buf) (m : C07.Mem)
+    (hrun : run cfg (ext (chunkTimeouts (C07.read buf addr len))) clock (St.init s0) batches = (st, evs, res))
+    (origin : Nat → Option Nat) (payload : Nat → List Nat)
+    (netOK : ∀ d ∈ batches.flatten, ∀ j, origin d.id = some j → ∃ t, Ev.send d.seq j 1 t ∈ evs)
+    (hlen : (C07.read buf addr len).length ≤ cfg.modulus)
+    (fresh : ∀ d ∈ batches.flatten, origin d.id = none → ∀ c t, Ev.send d.seq c 1 t ∉ evs)
+    (hpay : ∀ d ∈ batches.flatten, d.rc = rcOk → ∀ j ch, origin d.id = some j →
+      (C07.read buf addr len)[j]? = some ch → payload d.id = C07.readMem m ch.addr ch.size) :
+    readThrough cfg clock s0 batches payload buf addr len ≠ .valueError ∧
+    (res = .done → readThrough cfg clock s0 batches payload buf addr len = .ok (C07.readMem m addr len)) ∧
+    (res ≠ .done → readThrough cfg clock s0 batches payload buf addr len = .burst res) := by
+  obtain ⟨buffer, hasm, hdone⟩ := read_through_burst_buffer h hb m hrun origin payload netOK hlen fresh hpay
+    (fun _ => 0)
+  unfold readThrough
+  simp only [ext_chunkTimeouts, hrun, hasm]
+  refine ⟨?_, ?_, ?_⟩
+  · cases res <;> simp
+  · intro hd; subst hd; simp only; rw [hdone rfl]
+  · intro hnd; cases res <;> simp at hnd ⊢
+
+/-- **Write through the burst.** `chunks = C07.write buf addr data` are the commands of
+`SCPConnection.write`; `exec` lists (ghost) the command indexes whose request datagrams the machine
+executed, in order.  For EVERY environment and every window size: if the machine executes only
+requests that this burst transmitted (`hexec`; no other writer), and an OK datagram that answers
+command `j` exists only if the machine executed `j` (`hreply`), then - under the `netOK` / `fresh`
+hypotheses of `callback_own_reply` - when the burst ends `done` every chunk was executed at least
+once, only chunks of this write were executed, and the machine's memory is exactly
+`C07.writeMem m addr data`: `data` at `[addr, addr + len)`, every other byte unchanged - however
+often and in whatever order the retransmitted requests were executed. -/
+theorem write_through_burst (h : WF cfg) {buf addr : Nat} {data : List Nat} (hb : 0 < buf) (m : C07.Mem)
+    (hrun : run cfg (ext (chunkTimeouts (C07.write buf addr data))) clock (St.init s0) batches = (st, evs, res))
+    (origin : Nat → Option Nat)
+    (netOK : ∀ d ∈ batches.flatten, ∀ j, origin d.id = some j → ∃ t, Ev.send d.seq j 1 t ∈ evs)
+    (hlen : (C07.write buf addr data).length ≤ cfg.modulus)
+    (fresh : ∀ d ∈ batches.flatten, origin d.id = none → ∀ c t, Ev.send d.seq c 1 t ∉ evs)
+    (exec : List Nat)
+    (hexec : ∀ j ∈ exec, ∃ s k t, Ev.send s j k t ∈ evs)
+    (hreply : ∀ d ∈ batches.flatten, d.rc = rcOk → ∀ j, origin d.id = some j → j ∈ exec) :
+    res = .done →
+      (∀ j, j < (C07.write buf addr data).length → j ∈ exec) ∧
+      (∀ j ∈ exec, j < (C07.write buf addr data).length) ∧
+      memAfter (C07.write buf addr data) exec m = C07.writeMem m addr data := by
+  intro hdone
+  have hlen' : (chunkTimeouts (C07.write buf addr data)).length ≤ cfg.modulus := by
+    rw [chunkTimeouts_length]; exact hlen
+  have hall : ∀ j, j < (C07.write buf addr data).length → j ∈ exec := by
+    intro j hj
+    have hcalled := done_all_called h hrun hdone j (by rw [chunkTimeouts_length]; exact hj)
+    obtain ⟨i, hi⟩ := mem_calledOf.mp hcalled
+    obtain ⟨d, hd, hid, hrc, _⟩ := callback_own_seq h hrun hi
+    have ho := callback_own_reply h hrun origin netOK hlen' fresh hi
+    exact hreply d hd hrc j (by rw [hid]; exact ho)
+  have hsub : ∀ j ∈ exec, j < (C07.write buf addr data).length := by
+    intro j hj
+    obtain ⟨s, k, t, hs⟩ := hexec j hj
+    have := (tries_bound h hrun hs).2.2
+    rwa [chunkTimeouts_length] at this
+  refine ⟨hall, hsub, ?_⟩
+  unfold memAfter
+  apply C07.write_exact_any_order buf addr data m hb
+  · intro w hw
+    obtain ⟨j, _, hget⟩ := List.mem_filterMap.mp hw
+    exact List.mem_of_getElem? hget
+  · intro c hc
+    obtain ⟨j, hj, rfl⟩ := List.getElem_of_mem hc
+    exact List.mem_filterMap.mpr ⟨j, hall j hj, List.getElem?_eq_getElem hj⟩
+
+/-- **Write, whatever the outcome.** If the burst raises (or the script ends first), only chunks of
+this write were executed: every byte of the machine's memory either still has its old value or
+already has the value the complete write gives it; bytes outside `[addr, addr + len)` are unchanged. -/
+theorem write_through_burst_partial (h : WF cfg) {buf addr : Nat} {data : List Nat} (hb : 0 < buf) (m : C07.Mem)
+    (hrun : run cfg (ext (chunkTimeouts (C07.write buf addr data))) clock (St.init s0) batches = (st, evs, res))
+    (exec : List Nat)
+    (hexec : ∀ j ∈ exec, ∃ s k t, Ev.send s j k t ∈ evs) (a : Nat) :
+    memAfter (C07.write buf addr data) exec m a = C07.writeMem m addr data a ∨
+    memAfter (C07.write buf addr data) exec m a = m a := by
+  unfold memAfter
+  rw [C07.foldl_execWrite]
+  have hc := C07.writeChunks_covers buf hb data.length addr data (Nat.le_refl _)
+  have hf := C07.wcovers_facts (C07.writeMem m addr data) buf _ _ _ hc (by
+    intro i hi
+    simp only [C07.writeMem]
+    rw [if_pos (by omega)]; congr 1; omega)
+  have sp := C07.applyAll_spec (C07.writeMem m addr data)
+    ((exec.filterMap (fun j => (C07.write buf addr data)[j]?)).map (fun c => (c.addr, c.data))) m (by
+    intro p hp
+    simp only [List.mem_map] at hp
+    obtain ⟨c, hc1, rfl⟩ := hp
+    obtain ⟨j, _, hget⟩ := List.mem_filterMap.mp hc1
+    exact hf.1 c (List.mem_of_getElem? hget)) a
+  by_cases hin : ∃ p ∈ (exec.filterMap (fun j => (C07.write buf addr data)[j]?)).map (fun c => (c.addr, c.data)),
+      C07.InPatch p a
+  · exact Or.inl (sp.1 hin)
+  · exact Or.inr (sp.2 hin)
+
+end compose
+
+/-- **`SCPConnection.read`, total.** Both results together: if the OS provides progress (`Progress`,
+for the burst of the read's chunks) and the network/machine satisfy the hypotheses of
+`read_through_burst` on the first `N = chunks * n_tries + D + 1` batches, then within `N` loop
+iterations `read` either returns exactly the bytes of memory `[addr, addr + len)`, or raises
+`TimeoutError` / `FatalReturnCodeError`; it never runs on and never fails in a callback. -/
+theorem read_through_burst_total {cfg : Cfg} {clock : Nat → Int} {s0 : Nat} (h : WF cfg) {buf addr len : Nat}
+    (hb : 0 < buf) (m : C07.Mem) {env : Nat → List Dgram} {D : Nat}
+    (hp : Progress cfg (chunkTimeouts (C07.read buf addr len)) clock s0 env D)
+    (origin : Nat → Option Nat) (payload : Nat → List Nat)
+    (netOK : ∀ d ∈ (firstBatches env ((C07.read buf addr len).length * cfg.nTries + D + 1)).flatten,
+      ∀ j, origin d.id = some j → ∃ t, Ev.send d.seq j 1 t ∈
+        (run cfg (ext (chunkTimeouts (C07.read buf addr len))) clock (St.init s0)
+          (firstBatches env ((C07.read buf addr len).length * cfg.nTries + D + 1))).2.1)
+    (hlen : (C07.read buf addr len).length ≤ cfg.modulus)
+    (fresh : ∀ d ∈ (firstBatches env ((C07.read buf addr len).length * cfg.nTries + D + 1)).flatten,
+      origin d.id = none → ∀ c t, Ev.send d.seq c 1 t ∉
+        (run cfg (ext (chunkTimeouts (C07.read buf addr len))) clock (St.init s0)
+          (firstBatches env ((C07.read buf addr len).length * cfg.nTries + D + 1))).2.1)
+    (hpay : ∀ d ∈ (firstBatches env ((C07.read buf addr len).length * cfg.nTries + D + 1)).flatten,
+      d.rc = rcOk → ∀ j ch, origin d.id = some j →
+      (C07.read buf addr len)[j]? = some ch → payload d.id = C07.readMem m ch.addr ch.size) :
+    (let r := readThrough cfg clock s0
+        (firstBatches env ((C07.read buf addr len).length * cfg.nTries + D + 1)) payload buf addr len
+     r = .ok (C07.readMem m addr len) ∨ (∃ c, r = .burst (.timeout c)) ∨ (∃ rc c, r = .burst (.fatal rc c))) := by
+  have hN : (chunkTimeouts (C07.read buf addr len)).length * cfg.nTries + D + 1 =
+      (C07.read buf addr len).length * cfg.nTries + D + 1 := by rw [chunkTimeouts_length]
+  have ht := (terminates_under_progress h hp).1
+  rw [hN] at ht
+  have hr := read_through_burst (cfg := cfg) (clock := clock) (s0 := s0)
+    (batches := firstBatches env ((C07.read buf addr len).length * cfg.nTries + D + 1))
+    (st := (run cfg (ext (chunkTimeouts (C07.read buf addr len))) clock (St.init s0)
+          (firstBatches env ((C07.read buf addr len).length * cfg.nTries + D + 1))).1)
+    (evs := (run cfg (ext (chunkTimeouts (C07.read buf addr len))) clock (St.init s0)
+          (firstBatches env ((C07.read buf addr len).length * cfg.nTries + D + 1))).2.1)
+    (res := (run cfg (ext (chunkTimeouts (C07.read buf addr len))) clock (St.init s0)
+          (firstBatches env ((C07.read buf addr len).length * cfg.nTries + D + 1))).2.2)
+    h hb m rfl origin payload netOK hlen fresh hpay
+  simp only at ht ⊢
+  rcases ht with hd | ⟨c, hc⟩ | ⟨rc, c, hc⟩
+  · exact Or.inl (hr.2.1 hd)
+  · refine Or.inr (Or.inl ⟨c, ?_⟩)
+    rw [hr.2.2 (by rw [hc]; simp), hc]
+  · refine Or.inr (Or.inr ⟨rc, c, ?_⟩)
+    rw [hr.2.2 (by rw [hc]; simp), hc]
+
 /-! ### without freshness the own-reply clause fails: sequence-number wrap-around -/
 
 namespace Wrap
@@ -357,6 +773,28 @@ example : ∃ st, Reach cfgX lX clockX st ∧ st.outs.length = cfgX.window :=
   ⟨_, Reach.step _ [] (Reach.init 1) (by decide) (by decide), by decide⟩
 
 
+/-- a burst with loss, a retryable code, a duplicate reply and retransmissions, continued by empty
+batches for ever, satisfies the progress hypotheses (a), (b) (strict form), (c) with 6 datagrams -/
+example : Progress cfgX lX clockX 1 (scriptEnv batchesX) 6 :=
+  ⟨fun k => by simp only [clockX]; omega,
+   fun n => (script_progress _ _ _ _ _ batchesX (by decide) (by decide) n).1,
+   fun n => Nat.le_trans (script_progress cfgX (ext lX) clockX (timedOut cfgX (ext lX) clockX) (St.init 1)
+     batchesX (by decide) (by decide) n).2 (by decide)⟩
+
+/-- a `select` that wakes up exactly at the deadline (clock reading 2 = deadline 0 + 2): the strict
+form of (b) fails, the realistic one holds; the burst retransmits one iteration later and ends
+with `TimeoutError` -/
+example : alongRun { cfgX with nTries := 2 } (ext [0]) clockX (timedOut { cfgX with nTries := 2 } (ext [0]) clockX)
+    (St.init 1) [[], [], [], []] = false := by decide
+example : ProgressWeak { cfgX with nTries := 2 } [0] clockX 1 (scriptEnv [[], [], [], []]) 0 :=
+  ⟨fun k => by simp only [clockX]; omega,
+   fun n => (script_progress _ _ _ _ _ [[], [], [], []] (by decide) (by decide) n).1,
+   fun n => Nat.le_trans (script_progress { cfgX with nTries := 2 } (ext [0]) clockX
+     (timedOutWeak { cfgX with nTries := 2 } (ext [0]) clockX) (St.init 1) [[], [], [], []]
+     (by decide) (by decide) n).2 (by decide)⟩
+example : (run { cfgX with nTries := 2 } (ext [0]) clockX (St.init 1) [[], [], [], []]).2 =
+    ([.send 1 0 1 0, .send 1 0 2 4], .timeout 0) := by decide
+
 /-- `batchesX` followed by a stale datagram of an earlier burst (id 15, sequence number 0, which
 this burst does not use) -/
 def batchesY : List (List Dgram) := batchesX ++ [[okD 15 0]]
@@ -386,6 +824,83 @@ example :
   · intro d hd hn c t
     simp [batchesY, batchesX, okD] at hd
     rcases hd with rfl | rfl | rfl | rfl | rfl | rfl <;> simp [originY] at hn <;> simp
+
+/-! non-vacuity of the composition theorems: a 10-byte read / write at an odd address with a 4-byte
+buffer (3 chunks), window 2, with a lost request, a retransmission, replies out of order and a
+duplicate reply -/
+def memR : C07.Mem := fun a => a % 7 + 1
+/-- nothing; the reply to chunk 1; the reply to chunk 0 and a duplicate of it; the reply to chunk 2 -/
+def batchesR : List (List Dgram) := [[], [okD 10 2], [okD 11 1, okD 12 1], [okD 13 3], []]
+def originR : Nat → Option Nat := fun i =>
+  if i = 10 then some 1 else if i = 11 ∨ i = 12 then some 0 else if i = 13 then some 2 else none
+def payloadR : Nat → List Nat := fun i =>
+  if i = 10 then C07.readMem memR 17 4 else if i = 11 ∨ i = 12 then C07.readMem memR 13 4
+  else C07.readMem memR 21 2
+
+theorem runR_eq : (run cfgX (ext (chunkTimeouts (C07.read 4 13 10))) clockX (St.init 1) batchesR).2 =
+    ([.send 1 0 1 0, .send 2 1 1 1, .send 1 0 2 3, .send 3 2 1 6, .callback 1 10, .callback 0 11,
+      .callback 2 13], .done) := by decide
+
+/-- the hypotheses of `read_through_burst` hold for this run (chunk 1 completes before chunk 0, chunk
+0 is retransmitted, its duplicate reply is dropped), and `SCPConnection.read` returns the memory -/
+example : readThrough cfgX clockX 1 batchesR payloadR 4 13 10 = .ok (C07.readMem memR 13 10) := by
+  have hev := congrArg Prod.fst runR_eq
+  have hres := congrArg Prod.snd runR_eq
+  simp only at hev hres
+  refine (read_through_burst (cfg := cfgX) (clock := clockX) (s0 := 1) (batches := batchesR)
+    (st := (run cfgX (ext (chunkTimeouts (C07.read 4 13 10))) clockX (St.init 1) batchesR).1)
+    (evs := (run cfgX (ext (chunkTimeouts (C07.read 4 13 10))) clockX (St.init 1) batchesR).2.1)
+    (res := (run cfgX (ext (chunkTimeouts (C07.read 4 13 10))) clockX (St.init 1) batchesR).2.2)
+    (by unfold WF; decide) (by decide) memR rfl originR payloadR ?_ (by decide) ?_ ?_).2.1 hres
+  · intro d hd j hj
+    rw [hev]
+    simp [batchesR, okD] at hd
+    rcases hd with rfl | rfl | rfl | rfl <;> simp [originR] at hj <;> subst hj <;> simp
+  · intro d hd hn c t
+    simp [batchesR, okD] at hd
+    rcases hd with rfl | rfl | rfl | rfl <;> simp [originR] at hn
+  · intro d hd hrc j ch hj hch
+    simp [batchesR, okD] at hd
+    rcases hd with rfl | rfl | rfl | rfl <;> simp [originR] at hj <;> subst hj <;>
+      simp [C07.read, C07.readChunks] at hch <;> subst hch <;> simp [payloadR]
+example : readThrough cfgX clockX 1 batchesR payloadR 4 13 10 = .ok [7, 1, 2, 3, 4, 5, 6, 7, 1, 2] := by decide
+
+theorem runW_eq : (run cfgX (ext (chunkTimeouts (C07.write 4 13 [1,2,3,4,5,6,7,8,9,10]))) clockX (St.init 1)
+      batchesR).2 =
+    ([.send 1 0 1 0, .send 2 1 1 1, .send 1 0 2 3, .send 3 2 1 6, .callback 1 10, .callback 0 11,
+      .callback 2 13], .done) := by decide
+
+/-- the hypotheses of `write_through_burst` hold when the machine executed chunk 1, then chunk 0
+twice (both transmissions arrived), then chunk 2; memory then holds exactly the data -/
+example : memAfter (C07.write 4 13 [1,2,3,4,5,6,7,8,9,10]) [1, 0, 0, 2] memR =
+    C07.writeMem memR 13 [1,2,3,4,5,6,7,8,9,10] := by
+  have hev := congrArg Prod.fst runW_eq
+  have hres := congrArg Prod.snd runW_eq
+  simp only at hev hres
+  refine (write_through_burst (cfg := cfgX) (clock := clockX) (s0 := 1) (batches := batchesR)
+    (st := (run cfgX (ext (chunkTimeouts (C07.write 4 13 [1,2,3,4,5,6,7,8,9,10]))) clockX (St.init 1) batchesR).1)
+    (evs := (run cfgX (ext (chunkTimeouts (C07.write 4 13 [1,2,3,4,5,6,7,8,9,10]))) clockX (St.init 1) batchesR).2.1)
+    (res := (run cfgX (ext (chunkTimeouts (C07.write 4 13 [1,2,3,4,5,6,7,8,9,10]))) clockX (St.init 1) batchesR).2.2)
+    (by unfold WF; decide) (by decide) memR rfl originR ?_ (by decide) ?_ [1, 0, 0, 2] ?_ ?_ hres).2.2
+  · intro d hd j hj
+    rw [hev]
+    simp [batchesR, okD] at hd
+    rcases hd with rfl | rfl | rfl | rfl <;> simp [originR] at hj <;> subst hj <;> simp
+  · intro d hd hn c t
+    simp [batchesR, okD] at hd
+    rcases hd with rfl | rfl | rfl | rfl <;> simp [originR] at hn
+  · intro j hj
+    rw [hev]
+    simp at hj
+    rcases hj with rfl | rfl | rfl
+    · exact ⟨2, 1, 1, by simp⟩
+    · exact ⟨1, 1, 0, by simp⟩
+    · exact ⟨3, 1, 6, by simp⟩
+  · intro d hd hrc j hj
+    simp [batchesR, okD] at hd
+    rcases hd with rfl | rfl | rfl | rfl <;> simp [originR] at hj <;> subst hj <;> simp
+example : C07.readMem (memAfter (C07.write 4 13 [1,2,3,4,5,6,7,8,9,10]) [1, 0, 0, 2] memR) 12 12 =
+    [6, 1, 2, 3, 4, 5, 6, 7, 8, 9, 10, 3] := by decide
 end Example
 
 end Rig.C06
